@@ -5,6 +5,7 @@
 import SqlizeModel.Proofs.SpecTable
 import SqlizeModel.Proofs.EndToEndElemsDown
 import SqlizeModel.Proofs.UntouchedDown
+import SqlizeModel.Abs.FkDrop
 
 namespace Sqlize
 open Spec
@@ -72,7 +73,7 @@ theorem table_spec_down_any (g : Globals) (hg : g.dialect = .mysql) (hio : g.ign
         ∀ db0 : DB, (db0.map (·.name)).Nodup → db0.find t = some tbN →
         ∃ db' tb', execAll false db0 (cs ++ is) = some db' ∧ db'.find t = some tb' ∧
           colsEquiv tb'.cols tbO.cols = true ∧ tb'.idxs.Perm tbO.idxs ∧
-          tb'.pk = tbO.pk ∧ tb'.name = t ∧ (tbN.fks = [] → tb'.fks = []) ∧
+          tb'.pk = tbO.pk ∧ tb'.name = t ∧ tb'.fks = Abs.Idx.pruneFk dc tbN.fks ∧ (∀ c ∈ dc, c ∉ tbO.colNames) ∧
           (∀ u, u ≠ t → db'.find u = db0.find u) ∧ db'.map (·.name) = db0.map (·.name) := by
   have hoc : old.all Stmt.colSafe = true :=
     List.all_eq_true.mpr (fun s hs => Stmt.colSafe_of_elemSafe s (List.all_eq_true.mp ho s hs))
@@ -164,13 +165,12 @@ theorem table_spec_down_any (g : Globals) (hg : g.dialect = .mysql) (hio : g.ign
   have hnameO : tbN.name = t := by
     obtain ⟨_, _, hn0⟩ := find_getElem db0 t tbN hf0
     exact hn0
-  refine ⟨db2, { tb1 with idxs := R }, ?_, hf2, ?_, hperm, hpkfin, hn1.trans hnameO, ?_, ?_, hnames2.trans hnames1⟩
+  refine ⟨db2, { tb1 with idxs := R }, ?_, hf2, ?_, hperm, hpkfin, hn1.trans hnameO, ?_, hdcN, ?_, hnames2.trans hnames1⟩
   · rw [execAll_append, he1]; exact he2
   · show colsEquiv tb1.cols tbO.cols = true
     rw [hc1]; exact heq
-  · intro hno
-    show tb1.fks = []
-    rw [hfk1, hno]; rfl
+  · show tb1.fks = _
+    rw [hfk1, hdrop]; rfl
   · intro u hu
     rw [hother2 u hu, hother1 u hu]
 
